@@ -124,6 +124,16 @@ class Ctx:
                 m = None
             if m is not None:
                 return m
+        small = list(getattr(sc, "small", [])) if sc else []
+        if small:
+            # keep table sizes replayable: try growing bounds before giving up on any bound
+            for k in (22, 26, 30):
+                try:
+                    m = self.E.decide_case(True, conds + need + [v <= (1 << k) for v in small])
+                except Inconclusive:
+                    m = None
+                if m is not None:
+                    return m
         m = self.E.decide_case(True, conds + need)
         if m is None and need:
             if self.E.decide_case(True, conds) is not None:
